@@ -22,6 +22,7 @@ package plugin
 
 import (
 	"fmt"
+	"path/filepath"
 	"strings"
 	"sync"
 
@@ -96,12 +97,15 @@ func (msg MultiServiceGenerator) Generate(req *api.GenerateServiceRequest) (*api
 
 		pluginName := sg.Handle().Name()
 		for path, contents := range res.Files {
-			if takenBy, taken := usedPaths[path]; taken {
+			// Paths are joined to the output directory when the files are
+			// written: compare them the way they will be written.
+			key := filepath.Join(string(filepath.Separator), path)
+			if takenBy, taken := usedPaths[key]; taken {
 				return fmt.Errorf("plugin conflict: cannot write file %q for plugin %q: "+
 					"plugin %q already wrote to that file", path, pluginName, takenBy)
 			}
 
-			usedPaths[path] = pluginName
+			usedPaths[key] = pluginName
 			files[path] = contents
 		}
 
